@@ -10,7 +10,6 @@ EXTENDS Matrix, Json
 
 K40 == 40
 D40 == I(1, Pow2(K40))
-S18 == <<0, 0, 0, 0, 0, 0, 1>>
 Tol1e6 == <<0, 0, 0, 0, 1>>                 \* 10^-6 at scale 10^18
 Tol2e6 == <<0, 0, 0, 0, 2>>
 Obs(o) == I(o.s, o.lo)                       \* observed value (its floor; tolerances get +1 unit)
@@ -42,9 +41,19 @@ Decl == ndJsonDeserialize("spaces.ndjson")
 DeclOf(space) == Decl[CHOOSE i \in 1..Len(Decl) : Decl[i].space = space]
 SpaceNames == {"srgb", "adobergb", "prophotorgb", "displayp3"}
 \* exact matrices from the DECLARED chromaticities, computed once
-MExact == [sp \in SpaceNames |->
-             LET d == DeclOf(sp) IN RGB2XYZ(Chroma(d.r), Chroma(d.g), Chroma(d.b), Chroma(d.w), D40)]
-WExact == [sp \in SpaceNames |-> WhiteXYZ(Chroma(DeclOf(sp).w), D40)]
+\* TLC re-evaluates a defined function at every application, so the derived tables
+\* live in a state variable: computed once when the initial state is built, then
+\* carried unchanged (trace specifications conjoin TabsInit / UNCHANGED tabs).
+VARIABLE tabs
+MOf(sp) == LET d == DeclOf(sp) IN RGB2XYZ(Chroma(d.r), Chroma(d.g), Chroma(d.b), Chroma(d.w), D40)
+WOf(sp) == WhiteXYZ(Chroma(DeclOf(sp).w), D40)
+\* explicit records: their fields are evaluated once, eagerly
+TabsInit == tabs = [m |-> [srgb |-> MOf("srgb"), adobergb |-> MOf("adobergb"),
+                           prophotorgb |-> MOf("prophotorgb"), displayp3 |-> MOf("displayp3")],
+                    w |-> [srgb |-> WOf("srgb"), adobergb |-> WOf("adobergb"),
+                           prophotorgb |-> WOf("prophotorgb"), displayp3 |-> WOf("displayp3")]]
+MExact == tabs.m
+WExact == tabs.w
 
 DeclaredOK(e) ==
     LET p == Published[e.space]  d == DeclOf(e.space) IN
@@ -147,6 +156,67 @@ TransposeOK(e) ==
     IN \A r \in Idx : \A c \in Idx : Near(o[r][c], A[c][r], den, <<1>>, S18)
 SingularOK(e) == Det(IntMat(e.a)) = IZero /\ e.panicked
 
+
+-----------------------------------------------------------------------------
+(* C12: chromatic adaptation.  White points arrive as exact XYZ vectors:       *)
+(* [v |-> <<dyadic, dyadic, dyadic>>] for the XYZ constructor, or derived from *)
+(* xyY as (x Y, y Y, (1 - x - y) Y) / y for the xyY constructor; either way an  *)
+(* integer vector A over a positive integer alpha.                             *)
+K30 == 30
+D30 == I(1, Pow2(K30))
+WhiteVec(w) ==   \* [vec |-> integer vector, den |-> positive Int]
+    IF w.form = "xyz"
+      THEN [vec |-> << AtScale(w.v[1], K30), AtScale(w.v[2], K30), AtScale(w.v[3], K30) >>, den |-> D30]
+      ELSE LET x == AtScale(w.v[1], K30)  y == AtScale(w.v[2], K30)  Q == AtScale(w.v[3], K30)
+           IN [vec |-> << IMul(x, Q), IMul(y, Q), IMul(ISub(ISub(D30, x), y), Q) >>, den |-> IMul(y, D30)]
+\* exact adaptation a -> b as a rational matrix:  (alpha / beta) Adaptation(A, B)
+ExactAdapt(wa, wb) ==
+    LET a == WhiteVec(wa)  b == WhiteVec(wb)  R == Adaptation(a.vec, b.vec)
+    IN RatMat(Scale(R.num, a.den), IMul(R.den, b.den))
+Tol1e9 == <<0, 0, 0, 1>>
+\* observed 3x3 (float64 entries) times an exact rational vector, compared with another
+MapsWhite(o, wa, wb, tol) ==
+    LET a == WhiteVec(wa)  b == WhiteVec(wb)
+        img == MatVec(o, a.vec)                      \* scale 10^18 * (a scale)
+    IN \A r \in Idx :   \* |img_r / (S a.den) - b_r / b.den| <= tol/S
+         LE(IAbs(ISub(IMul(img[r], b.den), IMul(IMul(b.vec[r], a.den), I(1, S18)))).n,
+            Mul(Mul(tol, a.den.n), b.den.n))
+NearMat(o, R, tol) == \A r \in Idx : \A c \in Idx : Near(o[r][c], R.num[r][c], R.den, tol, S18)
+NearIdentProd(o1, o2, tol) ==     \* o1 * o2 = I within tol, both at scale 10^18
+    LET pr == MatMul(o1, o2)  S36 == Mul(S18, S18)
+    IN \A r \in Idx : \A c \in Idx :
+         LE(IAbs(ISub(pr[r][c], IF r = c THEN I(1, S36) ELSE IZero)).n, Mul(tol, S18))
+AdaptOK(e) ==
+    LET ab == ObsMat(e.ab)  ba == ObsMat(e.ba)  aa == ObsMat(e.aa)
+        tolM == IF e.a.form = "xyz" /\ e.b.form = "xyz" THEN T1(Tol1e9) ELSE T1(Tol1e6)
+    IN /\ NearMat(ab, ExactAdapt(e.a, e.b), tolM)                    \* equals the Bradford matrix
+       /\ MapsWhite(ab, e.a, e.b, T1(Tol1e6))                        \* A's white -> B's white
+       /\ \A r \in Idx : \A c \in Idx :                               \* A -> A is the identity
+            Near(aa[r][c], IF r = c THEN IFromInt(1) ELSE IZero, IFromInt(1), T1(Tol1e9), S18)
+       /\ NearIdentProd(ba, ab, T1(Tol1e9))                           \* (B->A)(A->B) = I
+       /\ \A r \in Idx : Near(Obs(e.applied[r]),                      \* Apply(white A) = white B (float32 path)
+                              IMul(WhiteVec(e.b).vec[r], IFromInt(1)), WhiteVec(e.b).den, T1(Tol1e6), S18)
+       /\ e.same_xyy                                                   \* xyY and XYZ constructors agree
+\* ColorFromXYY: (x Y / y, Y, (1 - x - y) Y / y) within float32 rounding (relative 4 2^-24 + 10^-9 absolute)
+XyyToXyzOK(e) ==
+    LET w == WhiteVec(e.xyy) IN
+    \A r \in Idx :   \* |o/S - vec/den| <= 2.4e-7 |vec/den| + 1e-9
+       LE(Mul(IAbs(ISub(IMul(Obs(e.o[r]), w.den), IMul(w.vec[r], I(1, S18)))).n, Pow(<<10>>, 9)),
+          Add(Mul(Mul(w.vec[r].n, S18), FromInt(240)), Mul(Mul(w.den.n, S18), <<2>>)))
+ComposeOK(e) ==   \* (B->C)(A->B) = A->C within 10^-9 (1 + |entry|)
+    LET ab == ObsMat(e.ab)  bc == ObsMat(e.bc)  ac == ObsMat(e.ac)
+        pr == MatMul(bc, ab)
+    IN \A r \in Idx : \A c \in Idx :
+         LE(IAbs(ISub(pr[r][c], IMul(ac[r][c], I(1, S18)))).n,
+            Mul(T1(Tol1e9), Add(S18, ac[r][c].n)))
+\* Apply acts linearly: |o - R_obs v| <= 10^-6 max(1, sum |v|)  (float32 result of a float64 product)
+ApplyOK(e) ==
+    LET R == ObsMat(e.m)
+        v == [j \in Idx |-> I(e.v[j].s, e.v[j].lo)]
+        pr == MatVec(R, v)                              \* scale 10^36
+        scale == MaxS(AbsSum(v), S18)
+    IN \A r \in Idx : LE(IAbs(ISub(IMul(Obs(e.o[r]), I(1, S18)), pr[r])).n, Mul(T1(Tol1e6), scale))
+
 SpaceEventOK(e) ==
     CASE e.kind = "declared" -> DeclaredOK(e)
       [] e.kind = "coef" -> CoefOK(e)
@@ -160,4 +230,8 @@ SpaceEventOK(e) ==
       [] e.kind = "mulv" -> MulVOK(e)
       [] e.kind = "transpose" -> TransposeOK(e)
       [] e.kind = "singular" -> SingularOK(e)
+      [] e.kind = "adapt" -> AdaptOK(e)
+      [] e.kind = "compose" -> ComposeOK(e)
+      [] e.kind = "xyy2xyz" -> XyyToXyzOK(e)
+      [] e.kind = "apply" -> ApplyOK(e)
 =============================================================================
